@@ -2,7 +2,7 @@
 # usage: mut_try2.sh <patch.diff> <Cnn> [tier] [worktree]
 # Runs a check against a seeded change WITHOUT touching /repo or /verif/evidence: the patch is applied in a
 # scratch worktree, the harness is built against that worktree, evidence goes to a scratch root.
-P="$1"; ID="$2"; TIER="${3:-quick}"; W="${4:-/tmp/mutwt}"
+P="$(realpath "$1")"; ID="$2"; TIER="${3:-quick}"; W="${4:-/tmp/mutwt}"
 export GOFLAGS=-mod=mod GOPROXY=off GOSUMDB=off GOTOOLCHAIN=local
 if [ ! -d "$W" ]; then git -C /repo worktree add -q --detach "$W" HEAD || exit 2; fi
 cd "$W" && git checkout -q --detach "$(git -C /repo rev-parse HEAD)" 2>/dev/null; git checkout -q -- . ; git clean -fdq >/dev/null 2>&1
